@@ -59,14 +59,6 @@ static void static_context_cache(uint32_t n)
   for (uint32_t i = 0; i < n; i++) g_tcs[i] = ctx_at(i);
   v._M_impl._M_start = g_tcs; v._M_impl._M_finish = g_tcs + n; v._M_impl._M_end_of_storage = g_tcs + 4;
 }
-// typed static storage for the transit ring of context 0 (reads of event fields then fold to constants in symbolic execution)
-union TeSlots { TransitEvent e[TEBCAP]; TeSlots() {} ~TeSlots() {} };
-static TeSlots g_tes;
-static void static_ring()
-{
-  for (uint32_t i = 0; i < TEBCAP; i++) new (&g_tes.e[i]) TransitEvent();
-  *reinterpret_cast<TransitEvent**>(&teb_at(0)->_storage) = g_tes.e;      // the block allocated by the real constructor is dropped (never freed: no destructors run)
-}
 static void static_sinks(L* l, uint32_t n)
 {
   for (uint32_t k = 0; k < n; k++) new (&g_sp.a[k]) std::shared_ptr<Sink>(sink_at(k), nodel<Sink>);
@@ -83,7 +75,7 @@ extern "C" void h_event()
 {
   light_worker();
   bk_init_logger(0, 0);
-  bk_init_context(0, 0); static_context_cache(1); static_ring();
+  bk_init_context(0, 0); static_context_cache(1); bk_static_ring(0);
   uint64_t last = 0;
   for (uint32_t r = 0; r < NEVT; r++)
   {
@@ -123,7 +115,7 @@ extern "C" void h_sinks()
   bk_init_sink(0); bk_init_sink(1);
   L* l = bk_init_logger(0, 0);
   static_sinks(l, NSINK);
-  bk_init_context(0, 0); static_context_cache(1); static_ring();
+  bk_init_context(0, 0); static_context_cache(1); bk_static_ring(0);
   for (uint32_t r = 0; r < NEVT; r++)
   {
     TransitEvent* te = teb_at(0)->back();
@@ -197,7 +189,7 @@ extern "C" void h_flush_event()
   bk_init_sink(0); bk_init_sink(1);
   L* l = bk_init_logger(0, 0);
   static_sinks(l, NSINK);
-  bk_init_context(0, 0); static_context_cache(1); static_ring();
+  bk_init_context(0, 0); static_context_cache(1); bk_static_ring(0);
   static std::atomic<bool> flag{false};
   TransitEvent* te = teb_at(0)->back();
   te->timestamp = 10; te->macro_metadata = &MD_FLUSH; te->logger_base = l; te->flush_flag = &flag;
